@@ -28,7 +28,9 @@ import (
 	"io"
 	"io/fs"
 	"os"
+	"strconv"
 	"sync"
+	"sync/atomic"
 	"time"
 
 	_ "github.com/wader/fq/format/all"
@@ -62,6 +64,7 @@ type result struct {
 	Err    string   `json:"err"`
 	Stderr string   `json:"stderr"`
 	Hang   bool     `json:"hang"`
+	At     int      `json:"at"`   // number of script lines handed out when the session ended or stopped moving
 	Lost   bool     `json:"lost"` // an interrupt could not be delivered: nobody listened on InterruptChan
 }
 
@@ -122,6 +125,8 @@ func (w *lineWriter) Write(p []byte) (int, error) {
 	}
 }
 
+var idle = 6 * time.Second
+
 func runScript(sc script) result {
 	res := result{ID: sc.ID, Steps: []step{}, Tail: []string{}}
 	args := append([]string{"fq", "-i", "-n", "-c", "-M"}, sc.Args...)
@@ -130,15 +135,19 @@ func runScript(sc script) result {
 	top, abort := context.WithCancel(context.Background())
 	defer abort()
 	var cur []string // stdout lines since the last Readline call
+	var last atomic.Int64 // time of the last sign of life (a stdout line, a Readline call)
+	last.Store(time.Now().UnixNano())
 	armed := false   // the line being evaluated is a "run" line: deliver an interrupt at the marker
 	delivered := false
 	o.stdout = &lineWriter{fn: func(l string) {
 		cur = append(cur, l)
+		last.Store(time.Now().UnixNano())
 		if armed && l == `"go"` {
 			armed = false
 			select {
 			case o.intr <- struct{}{}:
 				delivered = true
+				last.Store(time.Now().UnixNano())
 			case <-time.After(5 * time.Second):
 				res.Lost = true
 				abort()
@@ -148,6 +157,7 @@ func runScript(sc script) result {
 	next := 0
 	o.rl = func(opts interp.ReadlineOpts) (string, error) {
 		res.Steps = append(res.Steps, step{Prompt: opts.Prompt, Out: append([]string{}, cur...), Intr: delivered})
+		last.Store(time.Now().UnixNano())
 		cur = nil
 		armed, delivered = false, false
 		if next >= len(sc.Lines) {
@@ -175,18 +185,31 @@ func runScript(sc script) result {
 	}
 	done := make(chan error, 1)
 	go func() { done <- ip.Main(top, o.Stdout(), "verif") }()
-	select {
-	case err = <-done:
-	case <-time.After(30 * time.Second):
-		res.Hang = true
-		abort()
+	// a session that shows no sign of life (no output line, no prompt) for `idle` is reported as not ending; the time is generous
+	// because the only thing a healthy session does silently is to wind up one cancelled loop
+	tick := time.NewTicker(100 * time.Millisecond)
+	defer tick.Stop()
+wait:
+	for {
 		select {
 		case err = <-done:
-		case <-time.After(30 * time.Second):
-			fmt.Fprintf(os.Stderr, "HANG: repl script %d did not end even after its context was cancelled; stderr=%q\n", sc.ID, o.stderr.String())
-			os.Exit(4)
+			break wait
+		case <-tick.C:
+			if time.Since(time.Unix(0, last.Load())) < idle {
+				continue
+			}
+			res.Hang = true
+			abort()
+			select {
+			case err = <-done:
+			case <-time.After(30 * time.Second):
+				fmt.Fprintf(os.Stderr, "HANG: repl script %d did not end even after its context was cancelled; stderr=%q\n", sc.ID, o.stderr.String())
+				os.Exit(4)
+			}
+			break wait
 		}
 	}
+	res.At = next
 	ip.Stop()
 	res.Tail = append(res.Tail, cur...)
 	if err != nil {
@@ -207,7 +230,10 @@ func runScript(sc script) result {
 
 func main() {
 	if len(os.Args) != 4 || os.Args[1] != "run" {
-		kit.Fatalf("usage: repl run <scripts.ndjson> <out.ndjson>")
+		kit.Fatalf("usage: repl run <scripts.ndjson> <out.ndjson>   (REPL_IDLE_S: seconds without a sign of life that count as a stall)")
+	}
+	if v, err := strconv.Atoi(os.Getenv("REPL_IDLE_S")); err == nil && v > 0 {
+		idle = time.Duration(v) * time.Second
 	}
 	out := kit.NewOut(os.Args[3])
 	n := 0
